@@ -134,6 +134,8 @@ def _reuse_scenario():
 
 
 SCENARIOS = [
+    # F51: a class redefined under the same name, asked about through PEP 585 / 604 hints before and after
+    {'mode': 'history', 'ops': [['define', 'Late', 0], ['th_cls', 'Late'], ['define', 'Late', 1], ['th_cls', 'Late']]},
     _reuse_scenario(),
     # the identifier of a collected wrapper of an unhashable hint is reused by a similar one
     {'mode': 'history', 'ops': [['is_subhint', ['unhashable', ['cls', 'int'], 7], ['cls', 'int']], ['gc'],
